@@ -56,8 +56,10 @@ func vh_C12_seq() {
 				verifReach("stale-at-reload")
 				verifAssert("C12.stale-implies-revalidated", idp.validateCalls == 1 && idp.validateOK)
 				verifAssert("C12.stale-implies-refresh-attempted", idp.refreshCalls == 1)
-				expired := re.ExpiresOn != nil && !re.ExpiresOn.IsZero() && re.ExpiresOn.Before(vNow())
+				// the session that is honoured (after any refresh) is the one that was validated and is unexpired
+				expired := got.ExpiresOn != nil && !got.ExpiresOn.IsZero() && got.ExpiresOn.Before(vNow())
 				verifAssert("C12.kept-implies-not-expired", !expired)
+				verifAssert("C12.validated-the-session-in-force", idp.validatedAT == got.AccessToken)
 				if idp.refreshKind == 0 {
 					verifReach("refreshed")
 					verifAssert("C12.refreshed-tokens-in-scope", got.AccessToken == idp.newAT && got.RefreshToken == idp.newRT)
